@@ -1150,6 +1150,20 @@ fn c07_base(family: &'static str, ch: &mut Choices, small: bool) -> Plan {
         plan.cfg.wr_hw = 64;
         plan.cfg.wr_lw = 16;
     }
+    if role.is_server() && !small && ch.chance(1, 5) {
+        // motif: a SUBSCRIBE handler that publishes through the sink and awaits the acknowledgement before it
+        // answers, with another request buffered behind it, on a peer that acknowledges or not: when the
+        // connection ends, the handler's send fails and everything still winds down
+        // (the SUBSCRIBE comes first, while no other protocol handler is running: a request that had to wait
+        // in the library's control buffer keeps the dispatcher "not ready" - reading paused - for as long as
+        // its handler runs, so a handler started from the buffer must not wait for anything that has to be
+        // read; that is a documented-by-construction limit of the application, not of the library)
+        plan.cfg.handler_sends = true;
+        plan.peer.script.insert(0, step(Pkt::PingReq, ver, Pre::Connected));
+        plan.peer.script.insert(0, step(Pkt::Subscribe(rc::Subscribe { pid: 60, props: Vec::new(), filters: vec![("hs/1".into(), 1)] }), ver, Pre::Connected));
+        plan.peer.auto_ack = ch.chance(1, 3);
+        plan.tags.push("motif:handler-sends".into());
+    }
     plan.ending = Ending::SettleThenFin;
     plan.max_steps = 12_000;
     plan
